@@ -24,6 +24,9 @@ def build(R):
     R.shape('AnswerGroup', {'send_after': 'real', 'send_before': 'real', 'answers': AT})
     R.shape('Zeroconf', {'loop': 'EventLoop'})
     R.shape('DNSOutgoing', {'multicast': 'bool', 'flags': 'int', 'g_answers': AT})
+    # which records a reply carries as answers: here the ghost identity set of the (assumed) builder contracts; C11 verifies the
+    # builders and redefines it over the builder's real answer list
+    R.spec('carries', [('o', 'DNSOutgoing'), ('i', 'ident')], 'bool', 'o.g_answers.has(i)')
     # queue invariant: jitter window constants, strictly increasing send_after, non-decreasing send_before
     R.spec('mq_ok', [('q', 'MulticastOutgoingQueue')], 'bool',
            'q._multicast_delay_random_min == 20 and q._multicast_delay_random_max == 120 and q._additional_delay >= 0 '
@@ -107,7 +110,7 @@ def build(R):
     A = 'zeroconf._handlers.answers'
     R.contract(A, 'construct_outgoing_multicast_answers', 'C11', params={'answers': AT}, returns='DNSOutgoing', trusted=True,
                ensures=['result is not None and fresh_obj(result) and result.multicast and result.flags == 33792',
-                        'forall("i:ident", lambda i: result.g_answers.has(i) == answers.has(i))'],
+                        'forall("i:ident", lambda i: carries(result, i) == answers.has(i))'],
                note='builds DNSOutgoing(_FLAGS_QR_RESPONSE | _FLAGS_AA, multicast=True) holding exactly these answers '
                     '(ghost field g_answers = identity set); the builder internals are C03/C11/C14')
     S0 = 'old(len(SENT.events))'
@@ -135,7 +138,7 @@ def build(R):
                    # ... in ONE builder holding the union of their answers (no identity twice: it is a set) ...
                    'implies(not %s and exists("j:int, i:ident", lambda j, i: 0 <= j and j < %s and old(old(self.queue)[j].answers.has(i))), '
                    '   len(SENT.events) == %s + 1 and SENT.events[%s][0] == CLOCK.now and SENT.events[%s][1].multicast '
-                   '   and forall("i:ident", lambda i: SENT.events[%s][1].g_answers.has(i) == '
+                   '   and forall("i:ident", lambda i: carries(SENT.events[%s][1], i) == '
                    '        exists("j:int", lambda j: 0 <= j and j < %s and old(old(self.queue)[j].answers.has(i)))))' % (DELAY, K, S0, S0, S0, S0, K),
                    'implies(not %s and not exists("j:int, i:ident", lambda j, i: 0 <= j and j < %s and old(old(self.queue)[j].answers.has(i))), '
                    '   len(SENT.events) == %s)' % (DELAY, K, S0),
@@ -192,6 +195,8 @@ def install_classify(R):
            '   or q._questions[0].type == 1 or q._questions[0].type == 28)')
     R.spec('set_ok', [('s', SR)], 'bool',
            'forall("i:ident", lambda i: implies(s.has(i), s.keyobj(i) is not None and ident(s.keyobj(i)) == i))')
+    R.spec('keys_ok', [('m', AT)], 'bool',
+           'forall("i:ident", lambda i: implies(m.has(i), m.keyobj(i) is not None and ident(m.keyobj(i)) == i))')
     R.spec('qr_ok', [('q', '_QueryResponse')], 'bool',
            'q._cache is not None and wf_cache(q._cache) and set_ok(q._ucast) and set_ok(q._mcast_now) '
            'and set_ok(q._mcast_aggregate) and set_ok(q._mcast_aggregate_last_second) and '
@@ -222,7 +227,8 @@ def install_classify(R):
                               + routes(HIT),
                               modifies=['self._mcast_now', 'self._mcast_aggregate', 'self._mcast_aggregate_last_second'])})
     R.contract(QH, '_QueryResponse.answers', PROP, returns='QuestionAnswers', requires=['qr_ok(self)'],
-               ensures=['result is not None',
+               ensures=['result is not None and fresh_obj(result)',
+                        'keys_ok(result.ucast) and keys_ok(result.mcast_now) and keys_ok(result.mcast_aggregate) and keys_ok(result.mcast_aggregate_last_second)',
                         'forall("i:ident", lambda i: result.ucast.has(i) == self._ucast.has(i))',
                         'forall("i:ident", lambda i: result.mcast_now.has(i) == self._mcast_now.has(i))',
                         'forall("i:ident", lambda i: result.mcast_aggregate.has(i) == self._mcast_aggregate.has(i))',
@@ -244,7 +250,7 @@ def install_routing(R):
                params={'answers': AT, 'ucast_source': 'bool', 'questions': 'list[DNSQuestion]', 'id_': 'int'},
                returns='DNSOutgoing', trusted=True,
                ensures=['result is not None and fresh_obj(result) and not result.multicast',
-                        'forall("i:ident", lambda i: result.g_answers.has(i) == answers.has(i))'])
+                        'forall("i:ident", lambda i: carries(result, i) == answers.has(i))'])
     S0 = 'old(len(SENT.events))'
     NU = '(ite(len(question_answers.ucast) > 0, 1, 0))'
     R.contract(QH, 'QueryHandler.handle_assembled_query', PROP,
@@ -272,10 +278,10 @@ def install_routing(R):
                    # answered at once: exactly mcast_now, in this very step
                    'implies(question_answers is not None and len(question_answers.mcast_now) > 0, len(SENT.events) == %s + %s + 1 '
                    '   and SENT.events[%s + %s][0] == CLOCK.now and SENT.events[%s + %s][1].multicast '
-                   '   and forall("i:ident", lambda i: SENT.events[%s + %s][1].g_answers.has(i) == question_answers.mcast_now.has(i)))' % (S0, NU, S0, NU, S0, NU, S0, NU),
+                   '   and forall("i:ident", lambda i: carries(SENT.events[%s + %s][1], i) == question_answers.mcast_now.has(i)))' % (S0, NU, S0, NU, S0, NU, S0, NU),
                    'implies(question_answers is not None and len(question_answers.mcast_now) == 0, len(SENT.events) == %s + %s)' % (S0, NU),
                    'implies(question_answers is not None and len(question_answers.ucast) > 0, not SENT.events[%s][1].multicast '
-                   '   and forall("i:ident", lambda i: SENT.events[%s][1].g_answers.has(i) == question_answers.ucast.has(i)))' % (S0, S0),
+                   '   and forall("i:ident", lambda i: carries(SENT.events[%s][1], i) == question_answers.ucast.has(i)))' % (S0, S0),
                    # aggregated answers: youngest group of the 0/500 ms queue covers them, timed from the first packet
                    'implies(question_answers is not None and len(question_answers.mcast_aggregate) > 0, len(self.out_queue.queue) > 0 '
                    '   and forall("i:ident", lambda i: implies(question_answers.mcast_aggregate.has(i), self.out_queue.queue[len(self.out_queue.queue) - 1].answers.has(i))) '
@@ -390,7 +396,7 @@ def install_generators(R):
 
         class ZC:
             def async_send(self, out, *a):
-                sent.events.append((clock.now, out))
+                sent.events.append((clock.now, out, bool(a and a[0] is not None), (a[0] if a and a[0] is not None else ''), (a[1] if len(a) > 1 else 5353), (a[3] if len(a) > 3 else None)))
         zc = ZC()
         zc.loop = loop
         additional, aggr = g.rng.choice([(0, 500), (1000, 200)])
@@ -472,6 +478,7 @@ def install_classify_generators(R):
         pool = [copy.copy(r) for r in cached] + [g.record() for _ in range(2)]
         answers = {r: set() for r in pool if g.rng.random() < 0.6}
         return qr, answers, pool
+    R.mk_qr = mk_qr
     R.generators[(QH, '_QueryResponse._has_mcast_record_in_last_second')] = \
         lambda g: (lambda t: {'self': t[0], 'record': g.rng.choice(t[2])})(mk_qr(g))
 
@@ -554,7 +561,7 @@ def install_routing_generators(R):
 
         class ZC:
             def async_send(self, out, *a):
-                sent.events.append((clock.now, out))
+                sent.events.append((clock.now, out, bool(a and a[0] is not None), (a[0] if a and a[0] is not None else ''), (a[1] if len(a) > 1 else 5353), (a[3] if len(a) > 3 else None)))
 
         class QH(QueryHandler):      # same methods; only remembers what async_response returned (ghost question_answers)
             def async_response(self, msgs, ucast_source):
